@@ -625,27 +625,40 @@ def facts_binary(res):
     return binp
 
 
-def check_skeleton(res, pkg, expected_path):
-    """translator-style tie for hand-modelled packages: the comment-free, alpha-renamed, whitespace-collapsed text of every
-    function of <pkg> in /repo's working tree must equal the skeleton the model was written from"""
+def skeleton_of(res, pkg):
+    """{file:function -> canonical text} of every function of <pkg> in the working tree (harness/facts, SKEL lines)"""
     binp = facts_binary(res)
     if not binp:
-        return
+        return None
     rc, out = sh([binp, os.path.join(REPO, pkg)], cwd=REPO, env=GOENV, timeout=600)
     if rc != 0 or "typecheck:" in out:
         res.add(Problem("correspondence", f"facts extractor failed on package {pkg} (does the working tree type-check?)", out[-1000:]))
-        return
+        return None
     got = {}
     for line in out.split("\n"):
         f = line.split("\t")
         if f[0] == "SKEL" and len(f) >= 4:
             got[f[2]] = f[3]
+    return got
+
+
+def check_skeleton(res, pkg, expected_path=None, files=None):
+    """translator-style tie for the hand-written models: the comment-free, alpha-renamed, whitespace-collapsed text of every
+    function of <pkg> (optionally only of the given files) in /repo's working tree must equal the skeleton the models were written
+    from (harness/skeleton/<pkg>.expected). Returns True when it matches."""
+    expected_path = expected_path or os.path.join(HARNESS, "skeleton", pkg + ".expected")
+    got = skeleton_of(res, pkg)
+    if got is None:
+        return False
     exp = {}
     for line in open(expected_path):
         if line.startswith("#") or not line.strip():
             continue
         fn, _, text = line.rstrip("\n").partition("\t")
         exp[fn] = text
+    if files is not None:
+        got = {k: v for k, v in got.items() if k.split(":")[0] in files}
+        exp = {k: v for k, v in exp.items() if k.split(":")[0] in files}
     diffs = []
     for fn in sorted(set(got) | set(exp)):
         a, b = exp.get(fn), got.get(fn)
@@ -658,10 +671,37 @@ def check_skeleton(res, pkg, expected_path):
         else:
             i = next((k for k in range(min(len(a), len(b))) if a[k] != b[k]), min(len(a), len(b)))
             diffs.append({"function": fn, "change": "body differs", "modelled": a[max(0, i - 60):i + 100], "now": b[max(0, i - 60):i + 100]})
-    res.coverage["skeleton"] = {"package": pkg, "functions_compared": len(set(got) | set(exp)), "differences": len(diffs)}
+    sk = res.coverage.setdefault("skeleton", [])
+    sk.append({"package": pkg, "files": sorted(files) if files else "all", "functions_compared": len(set(got) | set(exp)), "differences": len(diffs)})
     if diffs:
         res.add(Problem("correspondence", f"{pkg}: the source no longer matches the code the Lean model was written from "
                         f"({', '.join(d['function'] for d in diffs[:6])}): the theorems are about the old code", diffs[:6], key="skeleton"))
+    return not diffs
+
+
+def write_skeletons():
+    """(maintenance, run by hand after the models were brought up to date with the source) regenerate harness/skeleton/*.expected"""
+    res = Result("C00", "quick", 0)
+    os.makedirs(os.path.join(HARNESS, "skeleton"), exist_ok=True)
+    for pkg in PKGS:
+        got = skeleton_of(res, pkg)
+        path = os.path.join(HARNESS, "skeleton", pkg + ".expected")
+        notes = {}
+        if os.path.exists(path):
+            key = None
+            for line in open(path):
+                if line.startswith("#= "):
+                    key = line[3:].split(": ", 1)[0]
+                    notes[key] = line
+        with open(path, "w") as f:
+            f.write(f"# Source skeleton of /repo/{pkg} (non-test files) from which the Lean models were written. Regenerated from the working tree on\n"
+                    "# every check by harness/facts (SKEL lines: AST printed without comments, function-local names renamed v0, v1, ..., white space\n"
+                    "# collapsed) and compared with this file, function by function. '#=' lines name the model entities. Format: <file>:<function>TAB<skeleton>.\n")
+            for fn in sorted(got):
+                if fn in notes:
+                    f.write(notes[fn])
+                f.write(f"{fn}\t{got[fn]}\n")
+    return res.problems
 
 
 def extract_facts(res):
